@@ -1,6 +1,3 @@
 package oracle
 
 func (c *ctx) loaderHistory() {}
-
-func (c *ctx) realClientVsModel()   {}
-func (c *ctx) realClientConn(i int) {}
